@@ -18,6 +18,29 @@ SHRINK_CALLS = ("smallvec::SmallVec::pop", "vec::Vec::pop", "smallvec::SmallVec:
                 "smallvec::SmallVec::remove", "vec::Vec::remove", "smallvec::SmallVec::truncate", "vec::Vec::truncate")
 
 
+def loop_makes_progress(b, li):
+    """Every cycle of the loop consumes input or shrinks a collection: the header cannot be reached again from
+    inside the loop without passing a shrink call or the *success edge* of a reader call (a reader that fails - end of
+    input - has consumed nothing, so a cycle that swallows the failure and goes round again is not progress)."""
+    from ..mirutil import success_edges
+    shrink = [bi for bi in li.blocks if b.blocks[bi]["term"]["k"] == "call" and callee_is(b.blocks[bi]["term"], *SHRINK_CALLS)]
+    readers = [bi for bi in li.blocks if b.blocks[bi]["term"]["k"] == "call" and callee_is(b.blocks[bi]["term"], *READER_CALLS)]
+    if not shrink and not readers:
+        return False
+    avoid_edges = set()
+    avoid_blocks = list(shrink)
+    for bi in readers:
+        oc = success_edges(b, bi)
+        if oc.ok_edges:
+            avoid_edges |= oc.ok_edges
+        else:
+            avoid_blocks.append(bi)
+    outside = [x for x in b.cfg.reach if x not in li.blocks]
+    starts = [s for s in b.cfg.succ.get(li.header, []) if s in li.blocks]
+    reach = b.cfg.reachable_from(starts, avoid_blocks=avoid_blocks + outside, avoid_edges=avoid_edges)
+    return li.header not in reach or li.header in avoid_blocks
+
+
 def regions(prog):
     """(pre, post) regions of the datagram path, union over both values of the plain-mode flag (A6)."""
     if hasattr(prog, "_c08_regions"):
@@ -87,13 +110,8 @@ def r5_loops_terminate(cx):
             if li.next_calls and li.exhaust_exits:
                 kind = "iterator"
             else:
-                prog_blocks = [bi for bi in li.blocks if b.blocks[bi]["term"]["k"] == "call" and callee_is(b.blocks[bi]["term"], *(READER_CALLS + SHRINK_CALLS))]
-                if prog_blocks:
-                    # every cycle passes a progress call: header unreachable from header's successors avoiding them
-                    outside = [x for x in b.cfg.reach if x not in li.blocks]
-                    reach = b.cfg.reachable_from([s for s in b.cfg.succ.get(li.header, []) if s in li.blocks], avoid_blocks=prog_blocks + outside)
-                    if li.header not in reach or li.header in prog_blocks:
-                        kind = "progress"
+                if loop_makes_progress(b, li):
+                    kind = "progress"
             how = "auto"
             if kind is None:
                 e = load_table("C08.loops").get("loop:" + b.path)
